@@ -339,6 +339,101 @@ def run_nested(R):
     R.sample({"kind": "nested Spec"})
 
 
+def run_structures(R):
+    """nested specs whose STRUCTURE differs (extra child, renamed child, nested child vs. primitive child, different depth) are
+    never equal, in either order: `==` must return False or refuse (raise), it must not return True.  Structures are concrete and
+    enumerated; the real Spec.__eq__ / is_equal_pytree run unshimmed."""
+    from jumanji import specs
+    A2 = collections.namedtuple("A2", ["a", "b"])
+    A3 = collections.namedtuple("A3", ["a", "b", "c"])
+    A2r = collections.namedtuple("A2r", ["a", "z"])
+    N1 = collections.namedtuple("N1", ["x"])
+    a = lambda: specs.BoundedArray((2,), np.int32, 0, 3, "a")          # noqa
+    b = lambda: specs.DiscreteArray(3, name="b")                       # noqa
+    c = lambda: specs.Array((1,), np.float32, "c")                     # noqa
+    base = lambda: specs.Spec(A2, "S", a=a(), b=b())                   # noqa
+    cases = {
+        "extra child": (base(), specs.Spec(A3, "S", a=a(), b=b(), c=c())),
+        "renamed child": (base(), specs.Spec(A2r, "S", a=a(), z=b())),
+        "nested child vs primitive child": (base(), specs.Spec(A2, "S", a=specs.Spec(N1, "inner", x=a()), b=b())),
+        "deeper nesting": (specs.Spec(A2, "S", a=specs.Spec(N1, "inner", x=a()), b=b()),
+                           specs.Spec(A2, "S", a=specs.Spec(N1, "inner", x=specs.Spec(N1, "inner2", x=a())), b=b())),
+        "one child missing": (base(), specs.Spec(N1, "S", x=a())),
+        "same keys, children swapped kinds": (base(), specs.Spec(A2, "S", a=b(), b=a())),
+    }
+    R.bound(cases=list(cases), note="structures concrete and enumerated")
+    for label, (s1, s2) in cases.items():
+        outcome = []
+        for x, y in ((s1, s2), (s2, s1)):
+            try:
+                outcome.append(bool(x == y))
+            except Exception as e:  # noqa
+                outcome.append("raised " + type(e).__name__)
+        R.structural(f"nested specs that differ in structure ({label}) never compare equal, in either order", True not in outcome,
+                     {"case": label, "s1 == s2": outcome[0], "s2 == s1": outcome[1]})
+        R.validated += 2
+    same = [bool(base() == base()), bool(specs.Spec(A3, "S", a=a(), b=b(), c=c()) == specs.Spec(A3, "S", a=a(), b=b(), c=c()))]
+    R.structural("control: structurally identical nested specs with equal children compare equal", all(same), {"results": same})
+    R.sample({"cases": list(cases)})
+
+
+def run_conversions(R):
+    """gym / dm_env conversions on SYNTHETIC specs with per-element, row-broadcast and non-uniform bounds (no shipped environment has
+    them, so a conversion that only keeps min(minimum)/max(maximum) is invisible there): converted parameters elementwise, and
+    membership agreement spec.validate <=> space.contains <=> dm_env validate for values at, just inside and just outside EVERY
+    element's bounds; samples of the converted space validate.  Concrete enumeration around the bounds, as the property states."""
+    from checks import C15
+    from jumanji import specs
+    Obs2 = collections.namedtuple("Obs2", ["u", "v"])
+    synth = {
+        "per-element int bounds": specs.BoundedArray((3,), np.int32, [0, -2, 5], [1, 5, 9], "p"),
+        "scalar minimum, per-element maximum": specs.BoundedArray((3,), np.int32, 0, [1, 5, 9], "q"),
+        "row-broadcast bounds (2,3)": specs.BoundedArray((2, 3), np.int32, [0, 1, 2], [[3, 4, 5], [6, 7, 8]], "r"),
+        "per-element float bounds": specs.BoundedArray((2,), np.float32, [0.0, -1.5], [0.5, 2.0], "f"),
+        "int8 per-element": specs.BoundedArray((2,), np.int8, [-3, 0], [0, 7], "i8"),
+        "uniform bounds (control)": specs.BoundedArray((2, 2), np.int32, -1, 4, "u"),
+        "multi-discrete": specs.MultiDiscreteArray(np.array([2, 5, 3], np.int32), name="md"),
+    }
+    R.bound(specs=list(synth))
+    for label, sp in synth.items():
+        class E_:   # the two attributes run_spaces reads
+            observation_spec = specs.Spec(Obs2, "O", u=sp, v=specs.DiscreteArray(4, name="v"))
+            action_spec = sp
+        C15.run_spaces(R, "synthetic: " + label, env=E_)
+        if not isinstance(sp, specs.BoundedArray) or isinstance(sp, specs.MultiDiscreteArray):
+            continue
+        space = specs.jumanji_specs_to_gym_spaces(sp)
+        dspec = specs.jumanji_specs_to_dm_env_specs(sp)
+        lo = np.broadcast_to(np.asarray(sp.minimum), sp.shape).astype(sp.dtype)
+        hi = np.broadcast_to(np.asarray(sp.maximum), sp.shape).astype(sp.dtype)
+        step = np.float32(0.25) if np.dtype(sp.dtype).kind == "f" else 1
+        bad, n = [], 0
+        mid = ((lo.astype(np.float64) + hi) / 2).astype(sp.dtype)
+        for idx in np.ndindex(*sp.shape):
+            for val in (lo[idx], lo[idx] + step, lo[idx] - step, hi[idx], hi[idx] - step, hi[idx] + step):
+                v = mid.copy()
+                v[idx] = val
+                want = bool(np.all((v >= lo) & (v <= hi)))
+                try:
+                    sp.validate(real_jnp.asarray(v))
+                    acc = True
+                except ValueError:
+                    acc = False
+                ing = bool(space.contains(np.asarray(v, dtype=space.dtype)))
+                try:
+                    dspec.validate(np.asarray(v, dtype=dspec.dtype))
+                    ind = True
+                except ValueError:
+                    ind = False
+                n += 1
+                if not (acc == want == ing == ind):
+                    bad.append({"value": v.tolist(), "within_bounds": want, "spec.validate": acc, "gym contains": ing, "dm_env validate": ind})
+        R.validated += n
+        R.structural(f"{label}: spec.validate <=> gym space.contains <=> dm_env spec.validate <=> within the bounds, for values at/inside/outside every element's bounds",
+                     not bad, {"spec": label, "checked": n, "disagreements": bad[:3]})
+    R.sample({"specs": list(synth)})
+
+
 def run_shipped(R, name):
     """all observation/action/reward/discount specs of a shipped environment: concrete algebra"""
     env = configs.make(name)
@@ -379,6 +474,8 @@ def jobs(tier, seed):
         for dt in ((np.int32,) if tier == "quick" else (np.int32, np.int8)):
             js.append((f"Discrete{n}/{np.dtype(dt).name}", "checks.C16", "run_discrete", {"n": n, "dtname": np.dtype(dt).name}))
     js.append(("nested", "checks.C16", "run_nested", {}))
+    js.append(("nested-structures", "checks.C16", "run_structures", {}))
+    js.append(("conversions", "checks.C16", "run_conversions", {}))
     for name in configs.ALL:
         js.append((f"shipped/{name}", "checks.C16", "run_shipped", {"name": name}))
     return js
